@@ -93,6 +93,15 @@ pub fn check_stream(ctx: &Ctx, bytes: &[u8], expect: &[u8], what: &str, with_xz:
             return;
         }
     }
+    if bytes.len() <= 4096 {
+        let case = Case::Dec { fmt: Fmt::Lzma2, opts: Opts::default(), input: Hex(bytes.to_vec()), rd: Rd::default(), sk: Sk { chunk: 3, ..Sk::default() } };
+        let o = crate::cases::run_case(&case);
+        ctx.traces.fetch_add(1, Ordering::Relaxed);
+        if !(o.v.is_ok() && o.out.0 == expect) {
+            ctx.violation(&case, &format!("{} into a sink accepting 3 bytes per write: Ok, complete output {} ({} bytes)", what, brief_bytes(expect), expect.len()), &o, None);
+            return;
+        }
+    }
     // raw decoder
     let mut h = RawH::new_lzma2();
     let r = h.apply(&RawOp::Dec(Hex(bytes.to_vec())));
